@@ -170,7 +170,11 @@ def oracle_c06(sim) -> None:
                 else:
                     ctx.violate("C06", "near_miss_taken", cls, f"{op.frame}: returned {got!r} (a {cls} near-miss)")
         elif kind == "perr":
-            ctx.violate("C06", "not_recognised", op.code, f"{op.frame}: echo and genuine reply were delivered "
+            first_reply = min((t for t, _ in op.reply_rx), default=None)
+            first_echo = min(op.echo_rx, default=None)
+            order = "reply_before_echo" if (first_reply is not None and first_echo is not None
+                                            and first_reply < first_echo) else "in_order"
+            ctx.violate("C06", "not_recognised", f"{op.kind}:{order}", f"{op.frame}: echo and genuine reply were delivered "
                         f"({sorted(op.replies)}) but send failed: {op.outcome}")
         elif kind == "other":
             ctx.violate("C06", "exception", op.outcome[1], f"{op.frame}: {op.outcome}")
